@@ -9,7 +9,9 @@ static const int N_NAMES = (int)ARRAY_LEN(NAMES);
 static const long INTS[] = {0, 1, -1, 42, LONG_MAX, LONG_MIN, 2147483647L, -2147483648L, 1700000000L};
 static const char *JSONS_OK[] = {"{}", "[]", "{\"x\":1}", "[1,2,3]", "{\"a\":{\"b\":[null,true,1.5,\"s\"]}}", "[[[]]]", "{\"a\":\"new\",\"zz\":false}",
 				 "{\"b\":2,\"c\":[1],\"q\":null}", " { \"sp\" : 1 } ", "{\"\xc3\xa9\":\"\xf0\x9f\x98\x80\"}",
-				 "{\"a\":1.5,\"b\":-0.0,\"c\":1e300}", "{\"ab\":2.0,\"exp\":1700000000.5,\"a\":null}"};
+				 "{\"a\":1.5,\"b\":-0.0,\"c\":1e300}", "{\"ab\":2.0,\"exp\":1700000000.5,\"a\":null}",
+				 // members of the small colliding alphabet that are present but null / falsy / empty: "present" is about the name, not the value
+				 "{\"a\":null,\"b\":null,\"c\":null,\"ab\":null}", "{\"a\":0,\"b\":false,\"c\":\"\",\"ab\":[]}", "{\"a\":{},\"b\":0.0,\"c\":\"c\",\"ab\":true}"};
 static const char *JSONS_BAD[] = {"", "{", "nope", "{\"a\":}", "5", "\"str\"", "true", "null", "{\"a\":1,}", "[1,", "{'a':1}", "1.5"};
 
 enum { T_INT = 0, T_STR, T_BOOL, T_JSON };
@@ -71,6 +73,9 @@ static Step gen_op(Rng &r)
 	s.set("hdr", r.chance(1, 2) ? 1 : 0);
 	// small colliding alphabet, "" and NULL less often
 	int n = r.chance(3, 4) ? (int)r.below(4) : (int)r.below((uint64_t)N_NAMES);
+	// whole-object merges (no name) are the only way a null member gets in, and the merge rules are where the map is least obvious
+	if (s.op == "SET" && s.I("type") == 3 && r.chance(1, 3))
+		n = r.chance(1, 2) ? 4 : 5;
 	s.set("name", n);
 	// the application keeps its jwt_value_t from the previous SET (GET) and only flips what it wants changed:
 	// the retry "EXIST -> replace = 1 -> call again", the poll "NOEXIST ... call again"
